@@ -1,7 +1,7 @@
 (** Proofs for C11: the decidable predicates evaluated on the implementation's observations are
     sound for the Prop-level statements. *)
 From Coq Require Import List ZArith QArith Qabs Arith Bool Lia.
-From Elfi Require Import Sched.Sched Sched.Bo Num.Acq Sched.BoCase Proofs.C11_Acq Proofs.C11_Box.
+From Elfi Require Import Sched.Sched Sched.Bo Num.Acq Gen.C11_Lcbsc Sched.BoCase Proofs.C11_Acq Proofs.C11_Box.
 Import ListNotations.
 Local Close Scope Q_scope.
 
@@ -96,27 +96,51 @@ Proof.
     eapply forallb_Forall; [|eassumption]. intros x. apply in_box_spec.
 Qed.
 
-(** ---- histories on one acquisition object ---- *)
-Definition close_P (a b : Q) : Prop := (Qabs (a - b) <= tol * (1 + Qabs b))%Q.
-Definition fd_close_P (extra a b : Q) : Prop :=
-  (Qabs (a - b) <= (2 # 10000) * (Qabs a + Qabs b) + (1 # 1000000) + extra)%Q.
+(** ---- histories on one acquisition object (scale-free since wave 3) ---- *)
+Definition rel_P (scale a b : Q) : Prop := (Qabs (a - b) <= tol * scale)%Q.
+Definition rel2_P (t a b : Q) : Prop := (Qabs (a - b) <= t * (Qabs a + Qabs b))%Q.
 
-(** coordinate-wise: the gradient is within the finite-difference tolerance of the central difference
-    for one of the two step sizes *)
-Inductive fd_match_P (s : hstep) : list Q -> list Q -> list Q -> list Q -> list Q -> Prop :=
-| fdm_nil : fd_match_P s [] [] [] [] []
-| fdm_cons m v a b c gm gv g f1 f2 :
-    fd_close_P (fd_extra s m v) a b \/ fd_close_P (fd_extra s m v) a c ->
-    fd_match_P s gm gv g f1 f2 -> fd_match_P s (m :: gm) (v :: gv) (a :: g) (b :: f1) (c :: f2).
-Definition fd_matches (s : hstep) (g : list Q) : Prop := fd_match_P s (h_gmean s) (h_gvar s) g (h_fd s) (h_fd2 s).
+(** two gradients agree coordinate-wise at 1e-9 of the coordinate's scale |grad_mean| + |1/2 grad_var sqrt(beta/var)| *)
+Inductive grad_rel_P (s : hstep) : list Q -> list Q -> list Q -> list Q -> Prop :=
+| grl_nil : grad_rel_P s [] [] [] []
+| grl_cons m v a b gm gv g g' :
+    rel_P (step_gscale s m v) a b -> grad_rel_P s gm gv g g' -> grad_rel_P s (m :: gm) (v :: gv) (a :: g) (b :: g').
+Definition grad_rels (s : hstep) (g g' : list Q) : Prop := grad_rel_P s (h_gmean s) (h_gvar s) g g'.
+
+(** the surrogate's own outputs are self-consistent for step hh along a coordinate *)
+Definition surr_cons_P (s : hstep) (m v hh sm sv : Q) : Prop :=
+  rel2_P ct m sm /\ rel2_P ct v sv /\ (Qabs (hh * v) <= st * h_var s)%Q.
+Definition fd_tol_P (s : hstep) (m v hh rough a b : Q) : Prop :=
+  (Qabs (a - b) <= ft * (Qabs a + Qabs b) + ft * step_gscale s m v + fd_noise s rough / hh)%Q.
+
+(** one coordinate of the second opinion: for one of the two steps the surrogate is self-consistent and the
+    gradient is within the finite-difference tolerance of the central difference -- or the surrogate is
+    self-consistent for neither step (no opinion) *)
+Definition fd_coord_P (s : hstep) (m v a b c : Q) (x : fdaux) : Prop :=
+  (0 < x_h x)%Q /\
+  ((surr_cons_P s m v (x_h x) (x_sm x) (x_sv x) /\ fd_tol_P s m v (x_h x) (x_rough x) a b)
+   \/ (surr_cons_P s m v (x_h x / (10 # 1)) (x_sm2 x) (x_sv2 x) /\ fd_tol_P s m v (x_h x / (10 # 1)) (x_rough x) a c)
+   \/ (surr_cons s m v (x_h x) (x_sm x) (x_sv x) = false /\ surr_cons s m v (x_h x / (10 # 1)) (x_sm2 x) (x_sv2 x) = false)).
+
+Inductive fd_match_P (s : hstep) : list Q -> list Q -> list Q -> list Q -> list Q -> list fdaux -> Prop :=
+| fdm_nil : fd_match_P s [] [] [] [] [] []
+| fdm_cons m v a b c x gm gv g f1 f2 aux :
+    fd_coord_P s m v a b c x ->
+    fd_match_P s gm gv g f1 f2 aux -> fd_match_P s (m :: gm) (v :: gv) (a :: g) (b :: f1) (c :: f2) (x :: aux).
+Definition fd_matches (s : hstep) (g : list Q) : Prop :=
+  fd_match_P s (h_gmean s) (h_gvar s) g (h_fd s) (h_fd2 s) (h_aux s).
 
 Record step_property (s : hstep) : Prop := {
   sp_beta : (0 < h_beta s)%Q;
   sp_var : (0 < h_var s)%Q;
-  (* the value the long-lived object returns is the value of a fresh object on the CURRENT surrogate *)
-  sp_val : forall v, h_val s = Some v -> close_P v (h_fval s);
-  (* so is its gradient, and it is the finite-difference derivative of the current acquisition function *)
-  sp_grad : forall g, h_grad s = Some g -> Forall2 close_P g (h_fgrad s) /\ fd_matches s g;
+  (* the value the long-lived object returns is the value of a fresh object on the CURRENT surrogate,
+     and it is mean - sqrt(beta var) of the surrogate's current outputs *)
+  sp_val : forall v, h_val s = Some v -> rel_P (step_vscale s) v (h_fval s) /\ rel_P (step_vscale s) v (step_val s);
+  (* so is its gradient: it is the translated gradient formula (the proved derivative) on the current outputs,
+     and the finite-difference derivative of the current acquisition function where that has an opinion *)
+  sp_grad : forall g, h_grad s = Some g -> grad_rels s g (h_fgrad s) /\ grad_rels s g (step_grad s) /\ fd_matches s g;
+  sp_fresh_val : rel_P (step_vscale s) (h_fval s) (step_val s);
+  sp_fresh_grad : grad_rels s (h_fgrad s) (step_grad s);
   sp_fresh : fd_matches s (h_fgrad s)
 }.
 
@@ -124,32 +148,64 @@ Definition hist_property (h : hist_case) : Prop :=
   Forall step_property (hs_steps h)
   /\ Forall (fun a => length (snd a) = fst a /\ Forall (In_box (hs_bounds h)) (snd a)) (hs_acq h).
 
-Lemma closeb_sound a b : closeb a b = true -> close_P a b.
-Proof. unfold closeb, close, close_P. apply Qle_bool_iff. Qed.
+Lemma rel_close_sound sc a b : rel_close sc a b = true -> rel_P sc a b.
+Proof. unfold rel_close, rel_P. apply Qle_bool_iff. Qed.
 
-Lemma fd_close_sound e a b : fd_close e a b = true -> fd_close_P e a b.
-Proof. unfold fd_close, fd_close_P. apply Qle_bool_iff. Qed.
+Lemma rel2_sound t a b : rel2 t a b = true -> rel2_P t a b.
+Proof. unfold rel2, rel2_P. apply Qle_bool_iff. Qed.
 
-Lemma fd_match_go_sound s : forall gm gv g f1 f2, fd_match_go s gm gv g f1 f2 = true -> fd_match_P s gm gv g f1 f2.
+Lemma grad_rel_go_sound s : forall gm gv g g', grad_rel_go s gm gv g g' = true -> grad_rel_P s gm gv g g'.
 Proof.
-  induction gm as [|m gm IH]; intros [|v gv] [|a g] [|b f1] [|c f2] H; simpl in H; try discriminate; constructor.
-  - apply andb_true_iff in H. destruct H as [H _]. apply orb_true_iff in H.
-    destruct H as [H|H]; [left|right]; now apply fd_close_sound.
+  induction gm as [|m gm IH]; intros [|v gv] [|a g] [|b g'] H; simpl in H; try discriminate; constructor.
+  - apply andb_true_iff in H. destruct H as [H _]. now apply rel_close_sound.
   - apply IH. apply andb_true_iff in H. tauto.
 Qed.
 
-Lemma fd_match_sound s g : fd_match s g = true -> fd_matches s g.
-Proof. apply fd_match_go_sound. Qed.
+Lemma grad_rel_sound s g g' : grad_rel s g g' = true -> grad_rels s g g'.
+Proof. apply grad_rel_go_sound. Qed.
+
+Lemma surr_cons_sound s m v hh sm sv : surr_cons s m v hh sm sv = true -> surr_cons_P s m v hh sm sv.
+Proof.
+  unfold surr_cons, surr_cons_P. intros H.
+  apply andb_true_iff in H. destruct H as [H H3]. apply andb_true_iff in H. destruct H as [H1 H2].
+  split; [now apply rel2_sound|]. split; [now apply rel2_sound|]. now apply Qle_bool_iff.
+Qed.
+
+Lemma fd_tol_sound s m v hh r a b : fd_tol_ok s m v hh r a b = true -> fd_tol_P s m v hh r a b.
+Proof. unfold fd_tol_ok, fd_tol_P. apply Qle_bool_iff. Qed.
 
 Lemma not_le_lt0 x : negb (Qle_bool x 0%Q) = true -> (0 < x)%Q.
 Proof.
   intros H. apply negb_true_iff in H. apply Qnot_le_lt. intros Hle. apply Qle_bool_iff in Hle. congruence.
 Qed.
 
+Lemma fd_coord_sound s m v a b c x : fd_coord s m v a b c x = true -> fd_coord_P s m v a b c x.
+Proof.
+  unfold fd_coord, fd_coord_P. cbv zeta. intros H.
+  apply andb_true_iff in H. destruct H as [Hh H]. split; [now apply not_le_lt0|].
+  apply orb_true_iff in H. destruct H as [H|H].
+  - apply orb_true_iff in H. destruct H as [H|H]; apply andb_true_iff in H; destruct H as [C T].
+    + left. split; [now apply surr_cons_sound | now apply fd_tol_sound].
+    + right. left. split; [now apply surr_cons_sound | now apply fd_tol_sound].
+  - right. right. apply andb_true_iff in H. destruct H as [C1 C2]. apply negb_true_iff in C1, C2. now split.
+Qed.
+
+Lemma fd_match_go_sound s : forall gm gv g f1 f2 aux, fd_match_go s gm gv g f1 f2 aux = true -> fd_match_P s gm gv g f1 f2 aux.
+Proof.
+  induction gm as [|m gm IH]; intros [|v gv] [|a g] [|b f1] [|c f2] [|x aux] H; simpl in H; try discriminate; constructor.
+  - apply andb_true_iff in H. destruct H as [H _]. now apply fd_coord_sound.
+  - apply IH. apply andb_true_iff in H. tauto.
+Qed.
+
+Lemma fd_match_sound s g : fd_match s g = true -> fd_matches s g.
+Proof. apply fd_match_go_sound. Qed.
+
 Theorem step_ok_sound s : step_ok s = true -> step_property s.
 Proof.
   unfold step_ok. intros H.
   apply andb_true_iff in H. destruct H as [H Hfresh].
+  apply andb_true_iff in H. destruct H as [H Hfg].
+  apply andb_true_iff in H. destruct H as [H Hfv].
   apply andb_true_iff in H. destruct H as [H Hgrad].
   apply andb_true_iff in H. destruct H as [H Hval].
   apply andb_true_iff in H. destruct H as [H _].
@@ -157,12 +213,21 @@ Proof.
   constructor.
   - now apply not_le_lt0.
   - now apply not_le_lt0.
-  - intros v E. rewrite E in Hval. simpl in Hval. now apply closeb_sound.
-  - intros g E. rewrite E in Hgrad. simpl in Hgrad. apply andb_true_iff in Hgrad. destruct Hgrad as [G1 G2]. split.
-    + eapply list_eqb_Forall2; [|exact G1]. apply closeb_sound.
-    + now apply fd_match_sound.
+  - intros v E. rewrite E in Hval. simpl in Hval. apply andb_true_iff in Hval. destruct Hval as [V1 V2].
+    split; now apply rel_close_sound.
+  - intros g E. rewrite E in Hgrad. simpl in Hgrad.
+    apply andb_true_iff in Hgrad. destruct Hgrad as [G G3]. apply andb_true_iff in G. destruct G as [G1 G2].
+    split; [now apply grad_rel_sound|]. split; [now apply grad_rel_sound | now apply fd_match_sound].
+  - now apply rel_close_sound.
+  - now apply grad_rel_sound.
   - now apply fd_match_sound.
 Qed.
+
+(** the exact clause is not vacuous at small scales: an answer that differs from the translated gradient
+    formula by more than 1e-9 of the coordinate's scale is rejected, whatever the finite differences say *)
+Theorem step_ok_gradient_is_formula s g :
+  step_ok s = true -> h_grad s = Some g -> grad_rels s g (step_grad s).
+Proof. intros H E. exact (proj1 (proj2 (sp_grad s (step_ok_sound s H) g E))). Qed.
 
 Theorem hist_ok_sound h : hist_ok h = true -> hist_property h.
 Proof.
@@ -224,6 +289,10 @@ Definition property_holds (c : case) : Prop :=
   | CAcq a => length (a_out a) = a_n a /\ Forall (In_box (a_bounds a)) (a_out a)
   | CBo k => bo_property k
   | CGrad g => (0 < g_beta g)%Q /\ (0 < g_var g)%Q
+      /\ rel_P (val_scale (near_q (g_sqrt g)) (g_beta g) (g_mean g) (g_var g)) (g_val g)
+               (lcbscQ (near_q (g_sqrt g)) (g_beta g) (g_mean g) (g_var g) 0)
+      /\ rel_P (grad_scale (near_q (g_sqrt g)) (g_beta g) (g_mean g) (g_var g) (g_gmean g) (g_gvar g)) (g_grad g)
+               (lcbsc_gradQ (near_q (g_sqrt g)) (g_beta g) (g_mean g) (g_var g) (g_gmean g) (g_gvar g) 0)
   | CHist h => hist_property h
   end.
 
@@ -232,8 +301,11 @@ Proof.
   destruct c as [a|k|g|h]; simpl.
   - apply C11_Acq.ok_sound.
   - apply bo_ok_sound.
-  - unfold grad_ok. intros H. apply andb_true_iff in H. destruct H as [H _].
-    apply andb_true_iff in H. destruct H as [H1 H2]. apply negb_true_iff in H1, H2.
-    split; apply Qnot_le_lt; intros Hle; apply Qle_bool_iff in Hle; congruence.
+  - unfold grad_ok. intros H.
+    apply andb_true_iff in H. destruct H as [H Hg]. apply andb_true_iff in H. destruct H as [H Hv].
+    apply andb_true_iff in H. destruct H as [H _].
+    apply andb_true_iff in H. destruct H as [H1 H2].
+    split; [now apply not_le_lt0|]. split; [now apply not_le_lt0|].
+    split; apply rel_close_sound; assumption.
   - apply hist_ok_sound.
 Qed.
